@@ -22,7 +22,7 @@ META = {
     "assumptions": ["field values are single-byte text without SOH (the property's domain)"],
 }
 
-MODES = ("alloc", "raw", "possdup", "seqreset")
+MODES = ("alloc", "raw", "possdup", "seqreset", "stale34", "possdupN")
 
 
 def with_mode(rng, m, mode):
@@ -33,6 +33,13 @@ def with_mode(rng, m, mode):
         if cc.txt(m[0]) == "4":          # a SequenceReset must carry its own number: not an allocate-mode message
             m[0] = cc.cp("D")
         return [m[0], body], False, None
+    if mode in ("stale34", "possdupN"):
+        # a NEW message that happens to carry a MsgSeqNum (e.g. a decoded message re-submitted), with or without
+        # PossDupFlag=N: not a retransmission, so a fresh number must be allocated
+        if cc.txt(m[0]) == "4":
+            m[0] = cc.cp("D")
+        extra = [[cc.cp("34"), [0, cc.cp(str(seq))]]] + ([[cc.cp("43"), [0, cc.cp("N")]]] if mode == "possdupN" else [])
+        return [m[0], extra + body], False, None
     if mode == "raw":
         return [m[0], [[cc.cp("34"), [0, cc.cp(str(seq))]]] + body], True, seq
     if mode == "possdup":
